@@ -1107,7 +1107,10 @@ def _lockstep_op(run, ms, op, run_out=None):
                 problems.append(("fresh-graph", "graph loaded in a new session differs from the object graph after commit", diff_graph(fg, mg, "loaded", "model")))
                 return None, None, problems
             if run.session.expire_on_commit:
-                sg = run.object_graph()
+                with warnings.catch_warnings(record=True) as wl:
+                    warnings.simplefilter("always")
+                    sg = run.object_graph()
+                run.warnings += [str(x.message) for x in wl]
                 sub = {k_: v for k_, v in fg.items() if k_ in sg}
                 if sg != sub:
                     problems.append(("session-graph", "graph seen through the committing session differs from a new session", diff_graph(sg, sub, "session", "fresh")))
